@@ -5,7 +5,7 @@ Protocol lines (model `join`, lean/PygModel/JoinDriver.lean):
   (join xor  <x> <y> <lcols> <rcols> <mode> <spelling>)  ->  ok (T <result> <x after> <y after>)
   (join listby (L (T cell*)*))                           ->  ok (L (T <group key> (L <row ids>))*)     dictable._listby
 tables are dicts of equally long lists; <lcols>/<rcols> are N or a list of S:<hex name> | (fn id S:name) |
-(fn dbl S:name) | (fn const); <mode> is mN | ml0 | mlS | mlL | mr1 | mrS | mrR | (mf fst|snd|swap|lst);
+(fn dbl S:name) | (fn const); <mode> is mN | ml0 | mlS | mlL | mr1 | mrS | mrR | (mv <cell atom>) | (mf fst|snd|swap|lst);
 <spelling> = sp:<l><r>[o]: how the column lists are written in python (l list, t tuple, b bare item; o = use the
 operator x * y or x / y), ignored by the model.
 """
@@ -124,6 +124,13 @@ def gen_pair(rng, lnames, rnames, shared_extra=None):
 
 JOIN_MODES = ['mN', 'mN', 'mN', 'ml0', 'mlS', 'mlL', 'mr1', 'mrS', 'mrR', '(mf fst)', '(mf snd)', '(mf swap)', '(mf lst)']
 XOR_MODES = ['mlS', 'mlS', 'mlS', 'ml0', 'mlL', 'mrS', 'mr1', 'mrR', 'mN', '(mf fst)']   # None / a callable mean 'l' for xor
+# round k1: ANY scalar as mode, `(mv <cell atom>)`; what it means is decided by Mode.ofPy / Mode.xorOfPy of the model (theorems
+# C02.mode_left_iff, mode_right_iff, mode_pair_iff, xor_mode_right_iff) and, independently, by `mode_kind` below.  Beyond the spellings
+# the statement lists: True / False / 1.0 / 0.0 (python == 1 / == 0), 'Left' / 'R' / 'lhs' / 'right' (first letter, any case),
+# and values that are NEITHER ('x', 2, -1, 0.25, nan, a datetime, 'else'): the pair for join, the left table for xor.
+MV_VALUES = [True, False, 1.0, 0.0, 'Left', 'R', 'lhs', 'right', 'L', 'x', 'else', 2, -1, 0.25, float('nan'),
+             datetime.datetime(2020, 1, 1), 'l', 'r', 0, 1, None]
+MV_MODES = ['(mv %s)' % proto.enc(v) for v in MV_VALUES]
 
 
 def spelling(rng, lspecs, rspecs, op_ok):
@@ -147,6 +154,8 @@ def gen_case(rng):
     """one random call; returns (tag, line)"""
     op = 'join' if rng.random() < 0.6 else 'xor'
     mode = rng.choice(JOIN_MODES if op == 'join' else XOR_MODES)
+    if rng.random() < 0.2:
+        mode = rng.choice(MV_MODES)
     r = rng.random()
     nk = rng.choice([1, 1, 1, 2, 2, 3])
     names = ['a', 'b', 'c'][:nk]
@@ -245,6 +254,8 @@ def gen_case(rng):
         if ren:
             tag = 'keyed-columns:' + tag
     sp = spelling(rng, ls, rs, op_ok=(ls is None and rs is None and mode in ('mN', 'mlS')))
+    if mode.startswith('(mv'):
+        tag = 'mode-value:' + tag
     return op + '-' + tag, line(op, x, y, ls, rs, mode, sp)
 
 
@@ -351,7 +362,25 @@ PY_FNS = {'fst': lambda l, r: l, 'snd': lambda l, r: r, 'swap': lambda l, r: (r,
 def dec_mode(sx):
     if isinstance(sx, str):
         return PY_MODES[sx]
+    if sx[0] == 'mv':
+        return proto.dec(sx[1])
     return PY_FNS[sx[1]]
+
+
+def mode_kind(sx):
+    """'l' / 'r' / 'pair' / a callable: the reading of the mode argument by the docstring of join ("mode = 0/'left'/'lhs' : return
+    the LHS value; 1/'right'/'rhs': RHS; callable: apply; None: the tuple"), written on the python VALUE - shares nothing with the
+    Lean decoding"""
+    v = dec_mode(sx)
+    if callable(v):
+        return v
+    if isinstance(v, str):
+        return {'l': 'l', 'r': 'r'}.get(v[:1].lower(), 'pair')
+    if isinstance(v, (bool, int, float)) and v == 0:
+        return 'l'
+    if isinstance(v, (bool, int, float)) and v == 1:
+        return 'r'
+    return 'pair'
 
 
 def dec_table(sx):
@@ -636,9 +665,10 @@ def row_keys(t, n, specs):
 
 
 def ref_mode(m):
-    if isinstance(m, str):
-        return {'mN': lambda l, r: (l, r), 'ml': lambda l, r: l, 'mr': lambda l, r: r}[m[:2]]
-    return PY_FNS[m[1]]
+    k = mode_kind(m)
+    if callable(k):
+        return k
+    return {'pair': lambda l, r: (l, r), 'l': lambda l, r: l, 'r': lambda l, r: r}[k]
 
 
 def impl_table(sx):
@@ -664,7 +694,7 @@ def statement_check(sx, res):
         return 'result is not rectangular'
     n = ns.pop() if ns else 0
     if sx[1] == 'xor':
-        right = isinstance(sx[6], str) and sx[6].startswith('mr')
+        right = mode_kind(sx[6]) == 'r'
         if not cols:
             want_t, ids = sh['x'], list(range(nx))
             names = sh['xc']
